@@ -21,6 +21,7 @@ from lib import Prop, coq_eval, coq_q, coq_nat, coq_list, load_known, unsome
 import util
 from util import TensorProduct, Hamiltonian, TTNO, TTNS, Node
 from props import c01d          # [ext-C01D] pipeline model tie (BIPARTITE driver) [/ext-C01D]
+from props import c01t          # [ext-C01T] TREE method model tie (marking algorithm) [/ext-C01T]
 from props import c01s          # [ext-C01S] pipeline model tie (SGE driver) [/ext-C01S]
 
 METHODS = ["SGE", "BIPARTITE", "TREE", "BASE"]
@@ -968,6 +969,365 @@ def history_prefix(case, upto):
 
 
 # ------------------------------------------------------------------------------------------
+# [str7-C01] term objects edited in place between conversions; reference trees produced by other library operations
+# ------------------------------------------------------------------------------------------
+# every route a UserDict offers to change a TensorProduct that is a term of a live Hamiltonian
+EDIT_ROUTES = {"set": ["setitem", "update", "update_kw", "ior", "ior_tp", "data_set", "data_update"],
+               "add": ["setitem", "update", "ior", "ior_tp", "data_set", "setdefault", "data_ior"],
+               "del": ["delitem", "pop", "data_del", "data_pop", "popitem"],
+               "coef": ["tuple"]}
+
+
+def apply_edit(ham, st):
+    """[str7-C01] the caller changes term no. st['term'] of the live Hamiltonian in place"""
+    i, route, lab = st["term"], st["route"], st.get("label")
+    fr, g, tp = ham.terms[i]
+    if route == "tuple":            # new prefactor / symbol, the same tensor product object
+        ham.terms[i] = (Fraction(st["num"], st["den"]), st["sym"], tp)
+        return
+    key = nid(int(st["site"])) if not str(st["site"]).startswith("x") else str(st["site"])
+    if route == "setitem":
+        tp[key] = lab
+    elif route == "update":
+        tp.update({key: lab})
+    elif route == "update_kw":
+        tp.update(**{key: lab})
+    elif route == "ior":
+        tp |= {key: lab}
+        assert ham.terms[i][2] is tp
+    elif route == "ior_tp":
+        tp |= TensorProduct({key: lab})
+    elif route == "data_set":
+        tp.data[key] = lab
+    elif route == "data_update":
+        tp.data.update({key: lab})
+    elif route == "data_ior":
+        tp.data |= {key: lab}
+    elif route == "setdefault":
+        tp.setdefault(key, lab)
+    elif route == "delitem":
+        del tp[key]
+    elif route == "pop":
+        tp.pop(key)
+    elif route == "data_del":
+        del tp.data[key]
+    elif route == "data_pop":
+        tp.data.pop(key)
+    elif route == "popitem":        # the generator uses it only where `key` is the first key of the term
+        k_, _v = tp.popitem()
+        assert k_ == key, "harness: popitem removed another factor than planned"
+    else:
+        raise ValueError(f"harness: unknown edit route {route}")
+
+
+def term_at(case, i, version):
+    """[str7-C01] term i of the case as the Hamiltonian object holds it: version = the list [num, den, sym, ops] recorded in
+    history['orig'] before its first edit, afterwards what the edit steps made of it"""
+    return [version[0], version[1], version[2], [list(o) for o in version[3]]]
+
+
+def random_edits(rng, phys, terms, hist):
+    """[str7-C01] inserts 'edit' steps into the history `hist` of one Hamiltonian object (see random_history): 1..3 of the
+    terms start as an EARLIER version (hist['orig'][i]) and are brought to the case's version by 1..2 in-place edits each -
+    a factor replaced / added on a new site / removed, through any mutating route of UserDict (EDIT_ROUTES) incl. `|=` and
+    `.data`, or the tuple in ham.terms replaced (new prefactor, same tensor product object).  Most edits come right after a
+    use of the object for the tree object of the final conversion (convert / pad / to_matrix) and are followed by one."""
+    n, T = len(phys), len(terms)
+    steps = hist["steps"]
+    D = int(np.prod(phys))
+    orig = {}
+    for i in rng.sample(range(T), min(T, rng.choice([1, 1, 2, 3]))):
+        ver = [terms[i][0], terms[i][1], terms[i][2], [list(o) for o in terms[i][3]]]
+        chain = []
+        for _ in range(rng.choice([1, 1, 2])):
+            # going backwards: `ver` is the version AFTER the edit, prev the one before
+            sites = [int(k) for k, _ in ver[3]]
+            free = [s_ for s_ in range(n) if s_ not in sites]
+            kinds = ["set", "set"] + (["add", "add", "add"] if len(sites) >= 2 else []) + (["del"] if free else []) + ["coef", "fix"]
+            kind = rng.choice(kinds)
+            prev = [ver[0], ver[1], ver[2], [list(o) for o in ver[3]]]
+            st = {"op": "edit", "term": i, "kind": kind}
+            if kind == "fix":           # error path: the earlier version has a factor on a site that is NO node of the tree - every use of the
+                # object is rejected until the caller removes it (always the first edit of the term: nothing else is done to such a term)
+                x_ = f"x{rng.randrange(3)}"
+                prev[3].insert(rng.randrange(len(sites) + 1), [x_, rng.choice(site_labels(phys, rng.randrange(n), 3))])
+                st.update(kind="fix", route=rng.choice(["delitem", "pop", "data_del", "data_pop"]), site=x_, to=ver)
+                chain.insert(0, st)
+                ver = prev
+                break
+            if kind == "coef":
+                fr = Fraction(ver[0], ver[1]) * rng.choice([2, -1, Fraction(1, 3), 5]) if ver[0] else Fraction(3, 2)
+                prev[0], prev[1] = fr.numerator, fr.denominator
+                st.update(route="tuple", num=ver[0], den=ver[1], sym=ver[2])
+            elif kind == "set":
+                j = rng.randrange(len(sites))
+                s_ = sites[j]
+                others = [l for l in site_labels(phys, s_, 3) if l != ver[3][j][1]]
+                if not others:
+                    continue
+                prev[3][j][1] = rng.choice(others)
+                st.update(route=rng.choice(EDIT_ROUTES["set"]), site=s_, label=ver[3][j][1])
+            elif kind == "add":             # the factor on the LAST key was added (a new key goes to the end of the dict)
+                s_, lab = ver[3][-1]
+                prev[3] = prev[3][:-1]
+                st.update(route=rng.choice(EDIT_ROUTES["add"]), site=int(s_), label=lab)
+            else:                           # a factor on a site the later version does not touch was removed
+                s_ = rng.choice(free)
+                pos = rng.choice([len(sites), 0, rng.randrange(len(sites) + 1)])
+                prev[3].insert(pos, [s_, rng.choice(site_labels(phys, s_, 3))])
+                routes = [r for r in EDIT_ROUTES["del"] if r != "popitem" or pos == 0]       # UserDict.popitem (MutableMapping) removes the FIRST key
+                st.update(route=rng.choice(routes), site=s_)
+            st["to"] = ver
+            chain.insert(0, st)
+            ver = prev
+        if chain:
+            orig[str(i)] = ver
+            # place the chain: after term i is in, in forward order
+            have = hist["init"]
+            first = 0
+            if i >= have:
+                for si, s0 in enumerate(steps):
+                    if s0["op"] == "extend":
+                        have += s0["n"]
+                        if i < have:
+                            first = si + 1
+                            break
+            pos = first
+            for st in chain:
+                pos = rng.randrange(pos, len(steps) + 1)
+                ins = []
+                if rng.random() < 0.85:         # a use of the object for the final tree object right before the edit
+                    r = rng.random()
+                    if r < 0.7:
+                        ins.append({"op": "convert", "method": rng.choice(["final", "final", "SGE", "BIPARTITE", "TREE", "BASE"]), "tree": "same"})
+                    elif r < 0.9 or D > 64:
+                        ins.append({"op": "pad", "tree": "same", "symbolic": True, "scribble": rng.random() < 0.5})
+                    else:
+                        ins.append({"op": "to_matrix", "tree": "same"})
+                ins.append(st)
+                if rng.random() < 0.4:
+                    ins.append({"op": "convert", "method": rng.choice(["final", "BASE", "BIPARTITE"]), "tree": rng.choice(["same", "same", "copy"])})
+                steps[pos:pos] = ins
+                pos += len(ins)
+    hist["orig"] = orig
+    # conversions for 'another tree on the same identifiers': it keeps the case's dimension on every site ANY version of a term touches
+    anysite = {int(k) for v in list(orig.values()) + [st["to"] for st in steps if st["op"] == "edit" and "to" in st] for k, _ in v[3] if not str(k).startswith("x")}
+    for st in steps:
+        if st["op"] == "convert" and st.get("other"):
+            st["other"]["phys"] = [phys[i] if i in anysite else d for i, d in enumerate(st["other"]["phys"])]
+    for st in steps:          # the caller also edits what pad_with_identities returned to him (his own object from then on)
+        if st["op"] == "pad" and "scribble" not in st and rng.random() < 0.4:
+            st["scribble"] = True
+    return hist
+
+
+def history_terms(case, upto=None):
+    """[str7-C01] the term list the Hamiltonian object of a history holds before step `upto` (default: at the end): the first
+    terms of the case, each in the version the 'edit' steps so far have made of its recorded earlier version"""
+    h = case["history"]
+    orig = h.get("orig") or {}
+    steps = h["steps"] if upto is None else h["steps"][:upto]
+    k = h["init"] + sum(st["n"] for st in steps if st["op"] == "extend")
+    cur = [term_at(case, i, orig.get(str(i), case["terms"][i])) for i in range(k)]
+    for st in steps:
+        if st["op"] == "edit":
+            cur[st["term"]] = term_at(case, st["term"], st["to"])
+    return cur
+
+
+# ---- reference trees that are the RESULT of other library operations -------------------------------------------------
+def _pt_from(ch, phys):
+    """pure tree: name -> [parent, children, open dimensions]"""
+    par = parents_of(ch)
+    return {nid(i): [nid(par[i]) if par[i] is not None else None, [nid(c) for c in ch[i]], [phys[i]]] for i in range(len(ch))}
+
+
+def random_treeops(rng, ch, phys):
+    """[str7-C01] -> {"start": pure tree, "root": name, "ops": [...]}: a start tree (built node by node, root first) and a
+    sequence of library operations after which the reference tree IS the case's tree (children, phys, identifiers n<i>).
+    Generated backwards from the case's tree with the inverse of
+      newroot   add_parent_to_root (the former root had a spare open leg)
+      rename    change_node_identifier (any node: root, inner node with grandchildren, leaf; temporary names that extend /
+                are extended by other identifiers, or identifiers of nodes that no longer exist)
+      contract  contract_nodes(id1, id2, new_identifier): the node is the contraction of a parent and a child, either as
+                id1; children lists concatenated as documented
+      split     split_node_qr: a node and its first child are the two halves (upper half = Q or R) of one node with two
+                groups of open legs, child legs named in any order
+    also several on the same nodes (contract, then split again).  The leg-order rules used to predict the result are the
+    documented ones; the harness asserts that the tree the library produced is the case's tree before converting."""
+    n = len(ch)
+    pt = _pt_from(ch, phys)
+    root = nid(0)
+    ops = []
+    final_names = [nid(i) for i in range(n)]
+
+    def fresh(base, reuse=True):
+        pool = [x for x in final_names if x not in pt and x != base and reuse] * 2 + [base + "_", base + "0", "x" + base, base[:1], "tmp", "root", nid(n), nid(n + 1),
+                                                             base + "contr" + base, "out_of_" + base, "in_of_" + base]
+        rng.shuffle(pool)
+        for x in pool:
+            if x and x not in pt:
+                return x
+        return base + "_%d" % rng.randrange(10 ** 6)
+
+    def replace_in_neighbours(old, new):
+        p, cs, _o = pt[new]
+        if p is not None:
+            pt[p][1] = [new if c == old else c for c in pt[p][1]]
+        for c in cs:
+            pt[c][0] = new
+
+    nops = rng.choice([1, 1, 2, 2, 3])
+    for _ in range(nops):
+        kinds = ["rename", "rename", "contract", "contract", "split"]
+        if len(pt[root][1]) == 1 and len(pt) >= 2:
+            kinds += ["newroot"] * 4
+        kind = rng.choice(kinds)
+        if kind == "newroot":
+            old = root
+            c = pt[root][1][0]
+            b = rng.choice([1, 2, 3])
+            o = pt.pop(old)[2]
+            pos = rng.randrange(len(pt[c][2]) + 1)
+            pt[c][0] = None
+            pt[c][2] = pt[c][2][:pos] + [b] + pt[c][2][pos:]
+            root = c
+            ops.insert(0, {"op": "newroot", "id": old, "open": o, "bond": b, "root_open_pos": pos})
+        elif kind == "rename":
+            # prefer nodes with grandchildren / the root
+            deep = [x for x in pt if any(pt[c][1] for c in pt[x][1])]
+            x = rng.choice(deep) if deep and rng.random() < 0.6 else rng.choice(sorted(pt))
+            node = pt.pop(x)
+            t = fresh(x)
+            pt[t] = node
+            replace_in_neighbours(x, t)
+            if root == x:
+                root = t
+            ops.insert(0, {"op": "rename", "new": x, "old": t})
+        elif kind == "contract":
+            deep = [x for x in pt if any(pt[c][1] for c in pt[x][1])]
+            x = rng.choice(deep) if deep and rng.random() < 0.6 else rng.choice(sorted(pt))
+            p, cs, o = pt.pop(x)
+            a, b2 = fresh(x), None
+            pt[a] = None
+            b2 = fresh(x)
+            j = rng.randrange(len(cs) + 1)
+            parent_first = rng.random() < 0.5          # id1 is the parent: children = parent's others + child's
+            pc, cc = (cs[:j], cs[j:]) if parent_first else (cs[j:], cs[:j])
+            k = rng.randrange(len(o) + 1)
+            o1, o2 = o[:k], o[k:]                        # open legs of id1, then of id2
+            po, co = (o1, o2) if parent_first else (o2, o1)
+            where = rng.randrange(len(pc) + 1)
+            pt[a] = [p, pc[:where] + [b2] + pc[where:], po]
+            pt[b2] = [a, list(cc), co]
+            for c in pc:
+                pt[c][0] = a
+            for c in cc:
+                pt[c][0] = b2
+            if p is not None:
+                pt[p][1] = [a if c == x else c for c in pt[p][1]]
+            if root == x:
+                root = a
+            ops.insert(0, {"op": "contract", "id1": a if parent_first else b2, "id2": b2 if parent_first else a, "new": x})
+        else:       # split: u (upper) and its FIRST child w were one node m
+            cand = [x for x in pt if pt[x][1]]
+            if not cand:
+                continue
+            u = rng.choice(sorted(cand))
+            w = pt[u][1][0]
+            pu, cu, ou = pt.pop(u)
+            _pw, cw, ow = pt.pop(w)
+            m = fresh(u)
+            mch = cu[1:] + cw
+            rng.shuffle(mch)
+            tags = [("u", k) for k in range(len(ou))] + [("w", k) for k in range(len(ow))]
+            rng.shuffle(tags)
+            mo = [(ou if t == "u" else ow)[k] for t, k in tags]
+            pt[m] = [pu, mch, mo]
+            for c in mch:
+                pt[c][0] = m
+            if pu is not None:
+                pt[pu][1] = [m if c == u else c for c in pt[pu][1]]
+            if root == u:
+                root = m
+            ops.insert(0, {"op": "split", "node": m, "upper": u, "lower": w, "upper_is_q": rng.random() < 0.5,
+                           "upper_children": cu[1:], "lower_children": list(cw),
+                           "upper_open": [tags.index(("u", k)) for k in range(len(ou))],
+                           "lower_open": [tags.index(("w", k)) for k in range(len(ow))]})
+    return {"start": {k: [v[0], list(v[1]), list(v[2])] for k, v in pt.items()}, "root": root, "ops": ops}
+
+
+def build_ref_ops(case):
+    """[str7-C01] the reference tree of a case with 'treeops': start tree built with add_root / add_child_to_parent (random
+    attach order), then the recorded library operations; asserted to be the case's tree afterwards"""
+    from pytreenet.core.leg_specification import LegSpecification
+    spec = case["treeops"]
+    pt, root = spec["start"], spec["root"]
+    rng = random.Random(case["seed"] + 17)
+    nprs = np.random.RandomState((case["seed"] + 17) % (2 ** 31))
+    bond = {x: rng.choice([1, 2]) for x in pt}
+    ttn = TTNS()
+
+    def tensor(x):
+        p, cs, o = pt[x]
+        return util.rand_tensor(nprs, tuple(([bond[x]] if p is not None else []) + [bond[c] for c in cs] + list(o)))
+    ttn.add_root(Node(identifier=root), tensor(root))
+    nextc = {root: 0}
+    while True:
+        cand = [p for p, k in nextc.items() if k < len(pt[p][1])]
+        if not cand:
+            break
+        p = rng.choice(cand)
+        c = pt[p][1][nextc[p]]
+        nextc[p] += 1
+        ttn.add_child_to_parent(Node(identifier=c), tensor(c), 0, p, ttn.nodes[p].nneighbours())
+        nextc[c] = 0
+    for op in spec["ops"]:
+        if op["op"] == "newroot":
+            r = ttn.root_id
+            leg = ttn.nodes[r].nneighbours() + op["root_open_pos"]
+            t_ = util.rand_tensor(nprs, tuple([op["bond"]] + list(op["open"])))
+            ttn.add_parent_to_root(leg, Node(tensor=t_, identifier=op["id"]), t_, 0)       # (this entry point needs the node linked to its tensor)
+        elif op["op"] == "rename":
+            ttn.change_node_identifier(op["new"], op["old"])
+        elif op["op"] == "contract":
+            ttn.contract_nodes(op["id1"], op["id2"], new_identifier=op["new"])
+        elif op["op"] == "split":
+            node = ttn.nodes[op["node"]]
+            nn = node.nneighbours()
+            up = LegSpecification(node.parent, list(op["upper_children"]), [nn + k for k in op["upper_open"]], is_root=node.is_root())
+            lo = LegSpecification(None, list(op["lower_children"]), [nn + k for k in op["lower_open"]])
+            if op["upper_is_q"]:
+                ttn.split_node_qr(op["node"], up, lo, q_identifier=op["upper"], r_identifier=op["lower"])
+            else:
+                ttn.split_node_qr(op["node"], lo, up, q_identifier=op["lower"], r_identifier=op["upper"])
+        else:
+            raise ValueError("harness: unknown tree operation")
+    ch, phys = case["children"], case["phys"]
+    par = parents_of(ch)
+    assert ttn.root_id == nid(0) and set(ttn.nodes) == {nid(i) for i in range(len(ch))} == set(ttn.tensors), \
+        f"harness: tree operations gave nodes {list(ttn.nodes)} root {ttn.root_id}"
+    for i in range(len(ch)):
+        nd = ttn.nodes[nid(i)]
+        assert nd.children == [nid(c) for c in ch[i]] and nd.parent == (nid(par[i]) if par[i] is not None else None), \
+            f"harness: tree operations gave {nid(i)}: parent {nd.parent} children {nd.children}, planned {ch[i]}"
+        assert nd.open_dimension() == phys[i] and nd.nopen_legs() == 1, "harness: tree operations, open legs"
+        assert tuple(ttn.tensors[nid(i)].shape) == tuple(nd.shape), "harness: tree operations, shape"
+    return ttn
+
+
+def parents_before_children(ttn):
+    """is every node stored after its parent in ttn.nodes (as in every tree built top-down)?"""
+    seen = set()
+    for k, nd in ttn.nodes.items():
+        if nd.parent is not None and nd.parent not in seen:
+            return False
+        seen.add(k)
+    return True
+# [/str7-C01]
+
+
+# ------------------------------------------------------------------------------------------
 # [str5-C01] magnitudes of the rational prefactors; trees with a node of >= 3 neighbours and many terms; process histories
 # ------------------------------------------------------------------------------------------
 def terms_scale(terms, pre, phys, conv, cm):
@@ -1306,7 +1666,18 @@ class C01(Prop):
             "distinct terms with dense supports, up to 6 labels per site, branching nodes of dimension 1 / untouched in 65%, prefactors unit / Fraction / Fraction "
             "times one shared symbol; TREE and BASE where the uncompressed hub tensor fits), 'first' / 'after' groups of the generic generators, all tied and "
             "certified like the other cases; 'scan' groups = hub groups with 10..40 (..60) terms, methods SGE and BIPARTITE, judged by the property oracle ONLY "
-            "(no export, no model evaluation, no certificate: counted in evaluations, not in traces_validated_against_impl). non-trivial = >= 2 nodes and >= 2 terms; "
+            "(no export, no model evaluation, no certificate: counted in evaluations, not in traces_validated_against_impl). [str7-C01] 'edit' groups (generic generators, all four methods, tie + certificate on the last conversion, oracle on every one): a history as in "
+            "the 'hist' groups in which 1..3 TERM OBJECTS of the live Hamiltonian start as an earlier version and are changed in place by the caller between uses - a factor "
+            "replaced, added on a new site or removed through every mutating route a UserDict offers (tp[k]=v, update (dict / keywords), |= dict, |= TensorProduct, "
+            "setdefault, del, pop, popitem, and tp.data[k]=v / .data.update / .data |= / del .data[k] / .data.pop), or the tuple in ham.terms replaced (new prefactor, same "
+            "tensor product object), or (error path, 'fix') the earlier version acts on a site that is no node: every conversion until the caller removes that factor must be "
+            "REJECTED and the object must convert exactly afterwards; 85% of the edits directly follow a use of the object for the tree object of the final conversion (convert / pad / to_matrix), "
+            "in 40-50% of the pad steps the caller also overwrites and empties the padded Hamiltonian he got back; 'treeops' groups (>= 2 nodes): the reference tree is the "
+            "RESULT of 1..3 library operations on a tree built top-down - add_parent_to_root, change_node_identifier (root / inner nodes with grandchildren / leaves; temporary "
+            "names extending or extended by other identifiers or re-using identifiers of nodes that no longer exist), contract_nodes (either operand first, new identifier), "
+            "split_node_qr (upper half = Q or R, child legs named in any order), also contract-then-split on the same nodes - generated backwards from the case's tree, so the "
+            "case format (children, dims, identifiers n<i>) and the tie are unchanged while the tree's nodes dictionary is in general not ordered parents-first; the harness "
+            "asserts that the library produced exactly the case's tree before converting. non-trivial = >= 2 nodes and >= 2 terms; "
             "distinct by case content")
     clauses = [
         ("F", "sd_check_sound / sd_refute_sound: sd_check t H d = true -> the diagram's denotation and sum_k lambda_k gamma_k (x) labels_k have equal "
@@ -1372,6 +1743,25 @@ class C01(Prop):
               "the BFS order; where the implementation raises (IndexError of _remove_reduntant_v_hyperedges) or leaves a hyperedge without vertex on the cut edge the "
               "model returns None at that call"),
         # [/ext-C01D]
+        # [ext-C01T]
+        ("F", "TREE model (SD/TreeCmp.v: from_hamiltonian_tree_comparison = from_single_term + add_single_term per further term, i.e. the leaf walks of "
+              "_mark_contained_vertices / _find_and_mark_new_vertex / _find_new_he and _add_hyperedges_rec / _find_vertices_connecting_to_he with the marker fields "
+              "contained / new / _already_checked, the dict order of reference_tree.nodes as a parameter, the code's coefficient handling): a one-term Hamiltonian "
+              "gives the single-term diagram and it denotes the term (C01_tree_single_exact); for every tree, node order and term list, tree_ok (after every "
+              "add_single_term of the model's run the state is sd_wf and denotes old + added term; decidable) implies that the returned diagram is well-formed and "
+              "denotes the Hamiltonian, by induction over the term list (C01_tree_exact_checked_partial: partial, tree_ok is a hypothesis evaluated per instance; the "
+              "universal soundness of the marking walk for unit coefficients is NOT proved); C01_tree_coeff_refuted: the recorded finding C01-tree-coefficients as "
+              "a theorem about the literal model (1*A + 2*B on one node; 1*XYZ + 3*XWZ on a 3-node star: the model's diagram is sd_wf and does not denote H); "
+              "BOUNDED (C01_tree_exact_unit_bounded, SD/TreeCmpBounded.v): for every rooted ordered tree with <= 4 nodes, every parents-first iteration order of the "
+              "node dict and every non-empty list of pairwise different operator strings over two labels per site with unit coefficients (<= 4 terms on <= 3 nodes, "
+              "<= 3 terms on 4 nodes, every term order; 59 784 model runs by vm_compute, lifted with forallb_forall) the model returns a well-formed diagram that denotes H"),
+        ("I", "TREE, per explored instance outside the two recorded findings (unit coefficients, no exactly repeated term): tree_ok holds by vm_compute and the "
+              "model's final diagram passes sd_check; with C01_tree_exact_checked_partial and the exact tie below a second kernel-checked proof of exactness of that instance"),
+        ("V", "TREE tie (props/c01t.py): a recorder wrapped at run time around StateDiagram.from_single_term / add_single_term exports the diagram after EVERY call; the "
+              "model's tree_trace equals it call by call - canonical form used for BASE (per node the ordered (label, lambda, gamma, bond indices), vertices per edge), "
+              "the ordered Vertex.hyperedges lists as (node, position), the number of marker fields left set - compared inside Coq, exact; the model's states satisfy "
+              "sd_wf; the instances of the recorded findings (non-unit coefficients, repeated terms) are tied too: the literal model builds the same wrong diagram"),
+        # [/ext-C01T]
         ("F", "structure_preserved: the model of TTNO.from_state_diagram/_rec_zero_ttno (obtain_tensor_shape, add_child_to_parent with its checks and leg moves) "
               "succeeds on every well-formed diagram whose labels are in the operator table and yields exactly the tree's identifiers in pre-order, parents, "
               "children in order, legs (parent, children..., out, in), bond dimension = number of vertices of the edge, physical dimension = table entry of the "
@@ -1391,7 +1781,9 @@ class C01(Prop):
               "earlier conversion of the same Hamiltonian object in a history (terms and symbol values of that moment), for every representation of the caller's numbers; "
               "[str5-C01] for badly scaled prefactors / mapped numbers with a tolerance relative to the size of the reference's data (1e-9 * sum_k |c_k| prod max|A_k|); "
               "for first constructions of a pristine process and constructions after earlier ones in the same process (forked from a zygote that constructed nothing), "
-              "incl. many-term Hamiltonians around nodes with >= 3 neighbours (part of them oracle-only, see rule)"),
+              "incl. many-term Hamiltonians around nodes with >= 3 neighbours (part of them oracle-only, see rule); "
+              "[str7-C01] for Hamiltonians whose term objects were edited in place between conversions (the reference follows the harness's own record of the edits) and "
+              "for reference trees produced by add_parent_to_root / change_node_identifier / contract_nodes / split_node_qr"),
     ]
     trusted_base = ["the export of StateDiagram objects (python identity -> names; vertices sorted by the neighbour they point to, as HyperEdge.find_tensor_position does)",
                     "labels/symbols enter the model as opaque naturals: linear independence of distinct operator strings is not needed for soundness (equal polynomials => equal operators)",
@@ -1404,6 +1796,10 @@ class C01(Prop):
                     "(monkeypatched wrappers, /repo untouched) and the canonical form of the exported intermediate diagrams; gaussian_elimination, which the BIPARTITE path "
                     "also calls and whose result it discards, is not part of the pipeline model",
                     # [/ext-C01D]
+                    # [ext-C01T]
+                    "TREE model: uuids are modelled as fresh names (term number, node / child end of the edge); the iteration order of the dict reference_tree.nodes is "
+                    "read off the object handed to the implementation; the run-time recorder around from_single_term / add_single_term (/repo untouched)",
+                    # [/ext-C01T]
                     ]
     assumptions = ["node identifiers of the reference tree are distinct (TreeStructure guarantees it)",
                    "at least one term; every label of the Hamiltonian and 'I<d>' for every untouched node's dimension is in the conversion dictionary"]
@@ -1590,6 +1986,33 @@ class C01(Prop):
             groups.append(g)
         return groups
 
+    def _str7_groups(self, ctx, stream, budget_scale):
+        """[str7-C01] 'edit' groups: one Hamiltonian object whose TERM objects the caller changes in place between uses (every
+        mutating route of a UserDict, see random_edits) on top of a history of random_history; 'treeops' groups: the reference
+        tree is the result of add_parent_to_root / change_node_identifier / contract_nodes / split_node_qr (random_treeops),
+        i.e. a valid tree whose nodes dictionary is in general NOT ordered parents-first.  Same case format as everywhere:
+        tie and certificate on the conversion of the case, the property oracle on every conversion"""
+        rng = ctx.rng(stream + ":str7")
+        cap = ctx.scale(100, 200)
+        plan = ["edit"] * (ctx.scale(18, 300) * budget_scale) + ["treeops"] * (ctx.scale(16, 300) * budget_scale)
+        groups = []
+        for what in plan:
+            g = None
+            for _ in range(30):
+                g = self._plain_group(rng, cap)
+                if g is not None and (what == "edit" or len(g["children"]) >= 2):
+                    break
+                g = None
+            if g is None:
+                continue
+            if what == "edit":
+                g["history"] = random_edits(rng, g["phys"], g["terms"], random_history(rng, g["children"], g["phys"], g["terms"], None, cap))
+            else:
+                g["treeops"] = random_treeops(rng, g["children"], g["phys"])
+            g["family"] = what
+            groups.append(g)
+        return groups
+
     def generate(self, ctx, stream, budget_scale=1):
         cases = []
         for gi, g in enumerate(self._groups(ctx, stream, budget_scale)):
@@ -1615,6 +2038,12 @@ class C01(Prop):
                     continue       # the uncompressed hub tensor (one bond index per term on every leg) would not fit
                 c = dict(g)
                 c.update(kind="ham", method=m, group=30000 + gi)
+                cases.append(c)
+        # [str7-C01] term objects edited in place between conversions; reference trees produced by library operations
+        for gi, g in enumerate(self._str7_groups(ctx, stream, budget_scale)):
+            for m in METHODS:
+                c = dict(g)
+                c.update(kind="ham", method=m, group=40000 + gi)
                 cases.append(c)
         rng = ctx.rng(stream + ":inject")
         for k in range(ctx.scale(60, 600) * budget_scale):
@@ -1673,6 +2102,15 @@ class C01(Prop):
                 ext = [i for i, s_ in enumerate(st) if s_["op"] == "extend"]
                 c["history:use_extend_use"] += bool(ext and any(s_["op"] in ("convert", "pad", "to_matrix") for s_ in st[:ext[-1]]))
                 c["history:repeat_only"] += not ext
+            # [str7-C01] in-place edits of term objects; reference trees made by library operations (per group)
+            for s_ in (x.get("history") or {}).get("steps", []):
+                if s_["op"] == "edit":
+                    c["edit:" + s_["kind"] + "/" + s_["route"]] += 1
+                if s_["op"] == "pad" and s_.get("scribble"):
+                    c["edit:caller edits the padded Hamiltonian he got back"] += 1
+            if x.get("treeops"):
+                c["treeops:groups"] += 1
+                c["treeops:sequence:" + "+".join(o["op"] for o in x["treeops"]["ops"])] += 1
             # [str5-C01] prefactor magnitudes, process histories, hubs (per group)
             if x.get("family") == "scale":
                 c["scale:" + x["scalemode"]] += 1
@@ -1731,6 +2169,8 @@ class C01(Prop):
             op = st["op"]
             if op == "extend":
                 chunk = case["terms"][k:k + st["n"]]
+                if "orig" in h:        # [str7-C01] terms enter in their recorded earlier version
+                    chunk = history_terms(case, si + 1)[k:k + st["n"]]
                 assert len(chunk) == st["n"], "harness: history consumes more terms than the case has"
                 k += st["n"]
                 how = st["how"]
@@ -1764,6 +2204,10 @@ class C01(Prop):
                             ham.add_term(term)
                 log.append({"op": "extend", "step": si, "how": how, "nterms": k})
                 continue
+            if op == "edit":        # [str7-C01] a term object of the live Hamiltonian is changed in place
+                apply_edit(ham, st)
+                log.append({"op": "edit", "step": si, "how": f"{st['kind']}/{st['route']}(term {st['term']})"})
+                continue
             if op == "remap":
                 v = complex(st["re"], st["im"])
                 pcm[st["sym"]] = v
@@ -1777,6 +2221,8 @@ class C01(Prop):
             tree = ttns if st.get("tree", "same") == "same" else (copy.deepcopy(ttns) if st["tree"] == "copy" else None)
             sub = {k_: v_ for k_, v_ in case.items() if k_ != "history"}
             sub["terms"] = case["terms"][:k]
+            if "orig" in h:        # [str7-C01] the terms as the edits so far left them
+                sub["terms"] = history_terms(case, si)
             if tree is None:
                 sub.update(children=st["other"]["children"], phys=st["other"]["phys"], seed=st["other"]["seed"])
                 tree = build_ref(sub)
@@ -1784,7 +2230,13 @@ class C01(Prop):
                 rec = {"op": op, "step": si}
                 try:
                     if op == "pad":
-                        ham.pad_with_identities(tree, symbolic=bool(st.get("symbolic", True)))
+                        padded_ = ham.pad_with_identities(tree, symbolic=bool(st.get("symbolic", True)))
+                        if st.get("scribble"):        # [str7-C01] the caller edits the object that was returned to him
+                            for _f, _g, tp_ in padded_.terms:
+                                for key_ in list(tp_.keys()):
+                                    tp_[key_] = "scribbled"
+                                tp_.data.clear()
+                            padded_.terms.clear()
                     else:
                         ham.to_matrix(tree)
                 except Exception as e:  # noqa
@@ -1793,6 +2245,15 @@ class C01(Prop):
                 continue
             m = case["method"] if st["method"] == "final" else st["method"]
             sub["method"] = m
+            if any(str(k_).startswith("x") for t_ in sub["terms"] for k_, _l in t_[3]):
+                # [str7-C01] error path: a term acts on a site that is no node - the conversion must be rejected, the object stays usable
+                rec = {"op": "convert", "step": si, "method": m, "nterms": k, "tree": st.get("tree", "same"), "reject_expected": True, "judged": True}
+                try:
+                    TTNO.from_hamiltonian(ham, tree, finder(m))
+                except Exception as e:  # noqa
+                    rec["rejected"] = f"{type(e).__name__}: {e}"[:200]
+                log.append(rec)
+                continue
             rec = {"op": "convert", "step": si, "method": m, "nterms": k, "tree": st.get("tree", "same"),
                    "children": sub["children"], "phys": sub["phys"], "judged": self._class_of(sub) is None}
             try:
@@ -1804,6 +2265,10 @@ class C01(Prop):
                 rec["exception"] = f"{type(e).__name__}: {e} [in {site}]"
             log.append(rec)
         assert k == len(case["terms"]), "harness: the history does not end with all terms of the case"
+        if "orig" in h:        # [str7-C01]
+            assert history_terms(case) == [term_at(case, i, t) for i, t in enumerate(case["terms"])], "harness: the edits do not end at the case's terms"
+            for (fr_, g_, tp_), t in zip(ham.terms, case["terms"]):
+                assert (Fraction(fr_), g_, dict(tp_)) == (term_frac(t), t[2], dict(make_term(t)[2])), "harness: the live term objects differ from the case's terms"
         return log
 
     def _impl_one(self, case):
@@ -1832,12 +2297,14 @@ class C01(Prop):
         ob = {"method": case["method"]}
         if case.get("proc_history"):
             ob["proc_history"] = [self._run_earlier(h) for h in case["proc_history"]]
-        ttns = build_ref(case)
+        ttns = build_ref_ops(case) if case.get("treeops") else build_ref(case)      # [str7-C01] tree produced by library operations
+        if case.get("treeops"):
+            ob["tree_topdown"] = parents_before_children(ttns)
         # the harness's own copy of the numbers (fresh complex arrays, plain Python numbers): never handed to the library
         pristine = build_ham(case, pristine=True)
         pconv, pcm = pristine.conversion_dictionary, pristine.coeffs_mapping
         hist = case.get("history") if case["kind"] == "ham" else None
-        ham = build_ham(case, terms=(case["terms"][:hist["init"]] if hist else None))
+        ham = build_ham(case, terms=((history_terms(case, 0) if "orig" in hist else case["terms"][:hist["init"]]) if hist else None))   # [str7-C01] earlier versions
         ch = case["children"]
         pre = preorder(ch)
         ids = [nid(i) for i in pre]
@@ -1852,7 +2319,7 @@ class C01(Prop):
                 ttno = TTNO.from_state_diagram(captured["sd"], ham.conversion_dictionary, ham.coeffs_mapping)
             else:
                 # [ext-C01D] BIPARTITE: record the diagram after every combine_subtrees / cut_and_optimise call
-                with spy_state_diagram(captured), c01d.recorder(case, ob), c01s.recorder(case, ob):      # [ext-C01S] SGE recorder [/ext-C01S]
+                with spy_state_diagram(captured), c01d.recorder(case, ob), c01s.recorder(case, ob), c01t.recorder(case, ob):      # [ext-C01S] SGE recorder [/ext-C01S] [ext-C01T] TREE: diagram after every add_single_term [/ext-C01T]
                     ttno = TTNO.from_hamiltonian(ham, ttns, finder(case["method"]))
                 # [/ext-C01D]
         except Exception as e:  # noqa
@@ -2011,6 +2478,7 @@ class C01(Prop):
                 f"| None => (false, [], false, false, None, @None canon, false, {shp}) end)")
         vals = c01d.eval_spread(ctx, IMPORTS, exprs, shard=40, scope="nat_scope")      # [str5-C01] expensive blocks spread over the shards
         c01d.run_model(ctx, cases, obs)      # [ext-C01D] model trace vs recorded steps, stored in the observations [/ext-C01D]
+        c01t.run_model(ctx, cases, obs)      # [ext-C01T] TREE model trace vs recorded add_single_term calls [/ext-C01T]
         c01s.run_model(ctx, cases, obs)      # [ext-C01S] the same for method SGE (SD/PipelineSGE.v) [/ext-C01S]
         # per-instance obligations: the exported diagram is well-formed and certified exact
         known = {k["id"] for k in load_known() if k.get("property") == self.id and k.get("status") == "known"}
@@ -2051,6 +2519,16 @@ class C01(Prop):
                 if msg:
                     fails.append(msg)
         # [/ext-C01S]
+        # [ext-C01T] per instance: every add_single_term of the model's TREE run adds exactly its term (tree_checks), the final
+        # diagram is certified: hypothesis of C01_tree_exact_checked_partial (not for the instances of the two known findings)
+        for c, ob in zip(cases, obs):
+            if isinstance(ob, dict) and self._class_of(c) is None:
+                cnt, good, msg = c01t.instance_obligation(c, ob)
+                n += int(cnt)
+                ok += int(good)
+                if msg:
+                    fails.append(msg)
+        # [/ext-C01T]
         self._inst = (n, ok, fails[:3])
         return vals
 
@@ -2112,6 +2590,11 @@ class C01(Prop):
         if msg:
             return msg
         # [/ext-C01S]
+        # [ext-C01T] TREE: the model's run equals the implementation's after from_single_term and every add_single_term
+        msg = c01t.compare(case, ob)
+        if msg:
+            return msg
+        # [/ext-C01T]
         if "exception" in ob:
             if case["method"] == "BASE":
                 return f"implementation raised {ob['exception']} where the model builds the BASE diagram"
@@ -2218,6 +2701,10 @@ class C01(Prop):
                 continue
             tag = (f"[history] conversion no. {nconv} of one Hamiltonian object (step {rec['step']}, method {rec['method']}, "
                    f"{rec['nterms']} of {len(case['terms'])} terms so far, tree object: {rec['tree']}):")
+            if rec.get("reject_expected"):        # [str7-C01]
+                if "rejected" not in rec:
+                    return f"{tag} a term on a site that is not in the tree was accepted"
+                continue
             if "exception" in rec:
                 return f"{tag} raised {rec['exception']}"
             what = self._oracle_conv(tag, rec["children"], rec["phys"], rec)
@@ -2225,6 +2712,9 @@ class C01(Prop):
                 return what
         hist = f" (conversion no. {nconv + 1} of this Hamiltonian object, after {[r['op'] + (':' + r['how'] if 'how' in r else '') for r in ob['history']]})" \
             if "history" in ob else ""
+        if case.get("treeops"):        # [str7-C01]
+            hist += (f" (reference tree = start tree {case['treeops']['start']} rooted at {case['treeops']['root']} after the library operations "
+                     f"{case['treeops']['ops']}; its nodes dictionary is {'' if ob.get('tree_topdown') else 'NOT '}ordered parents-first)")
         if case.get("proc") == "fresh":
             hist += f" (construction no. {len(case.get('proc_history') or []) + 1} of a fresh process)"
         if "exception" in ob:
